@@ -599,6 +599,23 @@ Definition p_gen {A : Type} (sel : list string -> A) (cfg : config) (t0 : Z) (m 
      Synchronize call of a worker that holds a task (pre dump) and does not report that task (idle, or another digest).
      The first cf_retry_count re-requests since the assignment are answered by telling the worker again; the next one
      fails the task with INTERNAL.  [rereq]: the worker, the operations of its task, the re-requests before this one. *)
+  (* a completion report the scheduler accepts (it names the task the worker holds) ends that assignment: whatever the
+     worker is told next is a fresh assignment (retryCount = 0), also when a retry on the same size class hands it the
+     very same task *)
+  let m := match e with
+           | EStartSync _ a _ =>
+             match y_state a, find_dworker pre (w_sk (y_worker a)) (wid (y_worker a)) with
+             | WCompleted d _, Some k =>
+               match dw_task k with
+               | Some ops0 =>
+                 if existsb (fun o => existsb (Nat.eqb (do_name o)) ops0 && (do_digest o =? d)%N) (d_ops pre)
+                 then m <| m_reissue := adel wref_eqb (y_worker a) (m_reissue m) |> else m
+               | None => m
+               end
+             | _, _ => m
+             end
+           | _ => m
+           end in
   let rereq : option (wref * list nat * nat) :=
     match e with
     | EStartSync _ a _ =>
